@@ -329,6 +329,8 @@ func (s *Store) Instantiate(
 		return nil, err
 	}
 
+	VerifYield("instantiate:before-register", m)
+
 	// Now that the instantiation is complete without error, add it.
 	if err = s.registerModule(m); err != nil {
 		_ = m.Close(ctx)
